@@ -118,6 +118,16 @@ class IntBlaster:
             if z3.is_bv_value(ch[1]) and ch[1].as_long() > 0:
                 return self.u(ch[0]) % ch[1].as_long()
             return self.fresh(w, 'urem')
+        if k in (z3.Z3_OP_BSDIV, z3.Z3_OP_BSDIV_I, z3.Z3_OP_BSREM, z3.Z3_OP_BSREM_I):
+            if z3.is_bv_value(ch[1]) and 0 < ch[1].as_long() < (1 << (w - 1)):
+                cst = ch[1].as_long()
+                x = self.s(ch[0])
+                if k in (z3.Z3_OP_BSDIV, z3.Z3_OP_BSDIV_I):
+                    q = z3.If(x >= 0, x / cst, -((-x) / cst))     # C truncating division
+                    return imod(q, M)
+                r = z3.If(x >= 0, x % cst, -((-x) % cst))
+                return imod(r, M)
+            return self.fresh(w, 'sdiv')
         if k == z3.Z3_OP_BAND:
             # mask with 2^k - 1
             consts = [c for c in ch if z3.is_bv_value(c)]
